@@ -238,9 +238,10 @@ StreamTextU(a) == Join([i \in 1 .. Len(a) |-> U32Str(a[i][1])], " ")
 (* exactly OpsFor(kind, group, type, dim) - the table is emitted by TLC.   *)
 Types == {"i", "u", "f", "d"}
 FloatTypes == {"f", "d"}
-Kinds == {"B", "S", "U", "I"}
+Kinds == {"B", "S", "U", "I", "X"}
 GroupsOf(k) == CASE k = "B" -> {"ring", "div"} [] k = "S" -> {"ring", "sdiv", "sweep", "sweepmul"}
                  [] k = "U" -> {"ring", "nz", "hom", "cvu"} [] k = "I" -> {"ring"}
+                 [] k = "X" -> {"ring", "sub", "div", "sdiv"}
 OpsOf(k, g, d) ==
   CASE k = "B" /\ g = "ring" -> {"add", "sub", "mul", "addeq", "subeq", "muleq", "eq", "ne", "lt", "dot", "dotm", "dotf",
                                  "min", "max", "minimize", "maximize", "minimized", "maximized", "swap",
@@ -258,6 +259,7 @@ OpsOf(k, g, d) ==
     [] k = "U" /\ g = "hom"  -> IF d = 4 THEN {"homogenized"} ELSE {}
     [] k = "U" /\ g = "cvu"  -> {"cv_u"}
     [] k = "I" /\ g = "ring" -> {"in"}
+    [] k = "X" -> {}
 MixedOpsOf(k, g, d) ==
   CASE k = "B" /\ g = "ring" -> {"add_di", "sub_id", "mul_fd", "dot_df"} \cup (IF d = 3 THEN {"cross_di"} ELSE {})
     [] k = "S" /\ g = "ring" -> {"smul_ih"}
@@ -267,7 +269,23 @@ OnlyFloat == {"normalize", "normalized", "normcond"}
 Applies(op, t) == /\ (t = "u" => op \notin NotForU)
                   /\ (op \in OnlyFloat => t \in FloatTypes)
                   /\ op # "cv_" \o t
-OpsFor(k, g, t, d) == IF t = "m" THEN MixedOpsOf(k, g, d) ELSE {op \in OpsOf(k, g, d) : Applies(op, t)}
+(* kind X: operands of two DIFFERENT scalar types, every ordered pair (left, right) of the four types.      *)
+(* VectorT's binary operators are templated on the right scalar type; the C++ rules fix the result:         *)
+(*   v OP w, v OP= w, v * s, s * v, v / s   computed per component in the common type of the two scalars     *)
+(*                                          (usual arithmetic conversions), then converted to the LEFT type   *)
+(*   v | w, v.dot(w), v % w, v.cross(w)     value / vector of the common type (decltype of the product)       *)
+(*   VectorT<R>(v), w = v                   conversion of every component to the right type                   *)
+(* (==, !=, <, min, max, minimize, maximize take a vector of the SAME type; they are not templated.)          *)
+XOpsOf(g, d) ==
+  CASE g = "ring" -> {"add", "addeq", "mul", "muleq", "dot", "dotm", "smul", "smull", "smuleq", "cvt", "asg"}
+                     \cup (IF d = 3 THEN {"cross", "crossm"} ELSE {})
+    [] g = "sub"  -> {"sub", "subeq"}
+    [] g = "div"  -> {"div", "diveq"}
+    [] g = "sdiv" -> {"sdiv", "sdiveq"}
+CommonType(tl, tr) == IF "d" \in {tl, tr} THEN "d" ELSE IF "f" \in {tl, tr} THEN "f" ELSE IF "u" \in {tl, tr} THEN "u" ELSE "i"
+OpsFor(k, g, t, d) == IF k = "X" THEN (IF t = "x" THEN XOpsOf(g, d) ELSE {})
+                      ELSE IF t = "x" THEN {}
+                      ELSE IF t = "m" THEN MixedOpsOf(k, g, d) ELSE {op \in OpsOf(k, g, d) : Applies(op, t)}
 (* operations that commute with reduction modulo 2^32 (checked on wrapped  *)
 (* negative inputs for unsigned); the others only on non-negative inputs   *)
 RingOps == {"eqc", "nec", "add", "sub", "mul", "addeq", "subeq", "muleq", "eq", "ne", "dot", "dotm", "dotf", "cross", "crossm", "crossf",
